@@ -165,9 +165,39 @@ def run(ctx):
     for c2 in [ic] + prog.children(ic):
         if _doubles_quote(prog, c2) and any(x['text'] == "'{}'" for x in format_sites(prog, c2)):
             ok_csv = True
-    ctx.instance('R3/import_csv', {'rule': 'C31.R3', 'fields_quoted_and_doubled': ok_csv})
+    # fields written WITHOUT quotes: only on the branch where is_plain_literal(field) holds, and that predicate admits only
+    # digits, sign, dot, exponent letters and the words TRUE / FALSE
+    from . import shared
+    unq_ok = True; unq_sites = 0
+    for c2 in [ic] + prog.children(ic):
+        if not c2.is_closure():
+            continue
+        fs2 = [x for x in format_sites(prog, c2) if x['text'] == "'{}'"]
+        if not fs2:
+            continue
+        sy2 = Sym(c2)
+        for bi, b in enumerate(c2.blocks):
+            t2 = b['t']
+            if t2['k'] == 'call' and t2.get('d') and t2['d'][0] == 0 and not t2['d'][1] and (callee_name(t2) or '').endswith('to_string'):
+                unq_sites += 1
+                conds = shared.deciding_conditions(c2, bi, sy2)
+                if not any(cnd.startswith('is_plain_literal(') and v in ('1', 'else:0') for cnd, v in conds):
+                    unq_ok = False
+    ipl = [f_ for f_ in prog.fns.values() if f_.unit == 'vibesql_cli' and f_.nice.endswith('data_io::is_plain_literal')]
+    allowed = set(b'+-.eE')
+    pl_chars = set()
+    for f_ in ipl:
+        for g_ in [f_] + prog.children(f_):
+            ct = char_tests(g_)
+            pl_chars |= set(ct)
+    ctx.instance('R3/import_csv', {'rule': 'C31.R3', 'fields_quoted_and_doubled': ok_csv, 'unquoted_sites': unq_sites,
+                                   'unquoted_guarded_by_is_plain_literal': unq_ok, 'is_plain_literal_admits': sorted(chr(c) for c in pl_chars)})
     if not ok_csv:
-        ctx.finding('R3/import_csv/quoting', 'import_csv no longer doubles quotes / wraps every field in quotes', ic.loc)
+        ctx.finding('R3/import_csv/quoting', 'import_csv no longer doubles quotes / wraps text fields in quotes', ic.loc)
+    if unq_sites and (not unq_ok or not ipl or not pl_chars <= allowed):
+        ctx.finding('R3/import_csv/unquoted', 'import_csv writes a field into the statement without quotes on a path that is not guarded by '
+                    f'is_plain_literal, or that predicate admits characters beyond digits + - . e E ({sorted(chr(c) for c in pl_chars - allowed)}): '
+                    'file text can change the statement', ic.loc)
     for f_ in (ij, ic):
         tm = [x['text'] for x in format_sites(prog, f_) if x['text'] and x['text'].startswith('INSERT INTO')]
         ctx.instance(f'R3/template/{f_.nice.rsplit("::",1)[1]}', {'rule': 'C31.R3', 'templates': tm})
